@@ -10,6 +10,9 @@ import Dawn.Model.LineWriter
                                        flags: 8 chars 0/1 = upToDateErr always depsUpToDate upToDate rerun dryRun bodyOk saveOk
                                        → `<events> <0|1 error>` events: string over U E S F, `.` = none
     evq <deps> <flags>                 → the events only
+    evo <deps> <flags> <line> <chunk>,…  the same with the body writing these chunks (hex; `.` = none) to a line
+                                       writer whose builder holds <line> → `<item>,<item>,… <builder afterwards>`,
+                                       items `U E S F` and `P<hex of line>` in delivery order (`.` = none)
     kind <method>                      → the kind string `runEvents.<method>` reports
 -/
 open Dawn Driver
@@ -55,6 +58,17 @@ def step (line : String) : String :=
       showEvs (Events.evaluate { deps := ds, upToDateErr := a, always := b, depsUpToDate := c, upToDate := d,
                                  rerun := e, dryRun := f, bodyOk := g, saveOk := h }).1
     | _, _ => "bad-input"
+  | ["evo", deps, flags, init, chunks] =>
+    match parseDeps deps, flags.toList.map (· == '1'), unhex init,
+        (if chunks == "." then some [] else (chunks.splitOn ",").mapM fun h => (unhex h).map (·.toList)) with
+    | some ds, [a, b, c, d, e, f, g, h], some line, some cs =>
+      let r := Events.evaluateOut { deps := ds, upToDateErr := a, always := b, depsUpToDate := c, upToDate := d,
+                                    rerun := e, dryRun := f, bodyOk := g, saveOk := h } line.toList cs
+      let items := r.1.map fun
+        | .ev .upToDate => "U" | .ev .evaluating => "E" | .ev .succeeded => "S" | .ev .failed => "F"
+        | .print l => "P" ++ hexBytes l
+      (if items.isEmpty then "." else ",".intercalate items) ++ " " ++ hexBytes r.2.2
+    | _, _, _, _ => "bad-input"
   | ["kind", m] =>
     if m == "Print" then Events.printKind
     else if m == "RunDone" then Events.runDoneKind
